@@ -555,6 +555,8 @@ func ruleFreshGenerator(c *Ctx, r *Repo, rule string) {
 		return
 	}
 	d := newDT(info)
+	d.callInline = pkgUnexported(cmdp) // the generator may be built and run in a private helper of Run
+	delete(d.callInline, nil)
 	d.paths = nil
 	d.stmts(&dtPath{env: map[types.Object]string{}}, rs.Body.List, func(p *dtPath) { d.finish(p, "end") })
 	ok, n := true, 0
